@@ -48,7 +48,9 @@ CONSTANTS Threads,    \* set of thread ids (strings; not "rcu")
           TSO,        \* TRUE: stores are buffered (x86-TSO); FALSE: sequential consistency
           Tracing,    \* TRUE: maintain acc
           SBMax,      \* bound on store-buffer length used by the state constraint
-          MaxDm       \* number of dummy-node names available (allocation beyond it is an error of the scenario)
+          MaxDm,      \* number of dummy-node names available (allocation beyond it is an error of the scenario)
+          HelpTail    \* FALSE: the code as it is.  TRUE: repair candidate -- dequeue helps q->tail forward when it equals
+                      \* head before moving q->head (d_ldt, d_help), so that head never overtakes tail
 
 NULL == "NULL"
 RCU == "rcu"
@@ -89,7 +91,9 @@ variables
   alive = [n \in Nodes |-> n \in UserNodes \cup {Dm(1)}],
   uaf = FALSE,                                     \* ghost: some dereference hit a node that is not alive
   ovt = {},                                        \* ghost: nodes removed through q.head while q.tail still pointed at them
-  stale = FALSE,                                   \* ghost: enqueue dereferenced a freed node of ovt through its tail pointer
+  stale = FALSE,                                   \* ghost: enqueue dereferenced, through its tail pointer, a node of ovt after it was freed or recycled
+  stl = {},                                        \* ghost: threads whose tail pointer names a node of ovt that was recycled since they loaded it
+  tailp = [t \in Threads |-> NULL],                \* the local variable tail of enqueue / dequeue (global only so that the ghosts can see it)
   incs = [t \in Threads |-> FALSE],                \* inside a read-side critical section
   gpw = [w \in Waiters |-> {}],                    \* sections the grace period of waiter w still waits for
   cbq = <<>>,                                      \* call_rcu queue (dummies to free)
@@ -101,9 +105,11 @@ define {
   Rd(t, loc) == IF LastIdx(t, loc) = 0 THEN mem[loc] ELSE sb[t][LastIdx(t, loc)][2]
   Drained(t) == sb[t] = <<>>
   Ev(t, op, var, a, b, r) == IF Tracing THEN [k |-> acc.k + 1, t |-> t, op |-> op, var |-> var, a |-> a, b |-> b, r |-> r] ELSE acc
-  Linearizable == cfgs # {}
-  NoUseAfterFree == ~uaf
-  NoStaleTailDeref == ~stale
+  NoStaleTailDeref == ~stale               \* known finding C12-head-overtakes-tail when HelpTail = FALSE
+  \* every other property is claimed for the behaviours in which that defect has not struck (all behaviours when HelpTail = TRUE,
+  \* where NoStaleTailDeref is checked as an ordinary invariant)
+  Linearizable == stale \/ cfgs # {}
+  NoUseAfterFree == stale \/ ~uaf
   InCs == {t \in Threads : incs[t]}
 }
 
@@ -145,7 +151,7 @@ r_cb:     alive[Head(batch)] := FALSE;                           \* free_dummy_c
 }
 
 fair process (thr \in Threads)
-variables i = 1, op = LM!NoOp, a = NULL, node = NULL, next = NULL, res = NULL, hd = NULL, tail = NULL, indq = FALSE, got = <<>>;
+variables i = 1, op = LM!NoOp, a = NULL, node = NULL, next = NULL, res = NULL, hd = NULL, indq = FALSE, got = <<>>;
 {
 t_top:  while (i <= Len(Prog[self])) {
           \* call: the driver performs rcu_read_lock / node init / the grace-period snapshot in the same scheduled step
@@ -155,7 +161,10 @@ t_top:  while (i <= Len(Prog[self])) {
           if (op.op = "enq") {
             node := op.n; indq := FALSE; incs[self] := TRUE;
             mem[NextOf(op.n)] := NULL;                           \* cds_lfq_node_init_rcu(node)
-            if (Prog[self][i].op = "reenq") { got := Tail(got); ovt := ovt \ {op.n} };
+            if (Prog[self][i].op = "reenq") {
+              got := Tail(got);
+              if (op.n \in ovt) { stl := stl \cup {t \in Threads : pc[t] \in {"e_mb", "e_cas"} /\ tailp[t] = op.n} };
+              ovt := ovt \ {op.n} };
             goto e_ldt }
           else if (op.op = "deq") { incs[self] := TRUE; goto d_ldh }
           else if (op.op = "destroy") { goto x_ldh }
@@ -165,14 +174,16 @@ t_top:  while (i <= Len(Prog[self])) {
           else { goto t_ret };
 
         \* ---------------- _cds_lfq_enqueue_rcu(q, node)   (also reached from enqueue_dummy with indq = TRUE)
-e_ldt:    Ld(tail, QTail);                                       \* tail = rcu_dereference(q->tail)
+e_ldt:    Ld(tailp[self], QTail);                                      \* tail = rcu_dereference(q->tail)
 e_mb:     Mb();                                                  \* cmm_emit_legacy_smp_mb()
-e_cas:    Cas(next, NextOf(tail), NULL, node);                   \* next = uatomic_cmpxchg(&tail->next, NULL, node)
-          if (~alive[tail]) { if (tail \in ovt) { stale := TRUE } else { uaf := TRUE } };
+e_cas:    Cas(next, NextOf(tailp[self]), NULL, node);            \* next = uatomic_cmpxchg(&tail->next, NULL, node)
+          if (~alive[tailp[self]]) { if (tailp[self] \in ovt) { stale := TRUE } else { uaf := TRUE } }
+          else if (self \in stl) { stale := TRUE };
+          stl := stl \ {self};
           if (next = NULL) { goto e_adv } else { goto e_help };
-e_help:   Cas(a, QTail, tail, next);                             \* failure: (void) uatomic_cmpxchg(&q->tail, tail, next); continue
+e_help:   Cas(a, QTail, tailp[self], next);                            \* failure: (void) uatomic_cmpxchg(&q->tail, tail, next); continue
           goto e_ldt;
-e_adv:    Cas(a, QTail, tail, node);                             \* success: (void) uatomic_cmpxchg(&q->tail, tail, node); return
+e_adv:    Cas(a, QTail, tailp[self], node);                            \* success: (void) uatomic_cmpxchg(&q->tail, tail, node); return
           if (indq) { goto d_ldn2 } else { res := "ok"; goto t_ret };
 
         \* ---------------- _cds_lfq_dequeue_rcu(q)
@@ -184,12 +195,16 @@ d_ldn:    Ld(next, NextOf(hd));                                  \* next = rcu_d
             assert nalloc < MaxDm;
             nalloc := nalloc + 1 || node := Dm(nalloc + 1) || alive[Dm(nalloc + 1)] := TRUE;
             goto d_mkd }
-          else { goto d_cas };
+          else if (HelpTail) { goto d_ldt } else { goto d_cas };
 d_mkd:    StP(NextOf(node), NULL);                               \* dummy->parent.next = next (NULL); dummy = 1; q = q
           indq := TRUE;
           goto e_ldt;                                            \* _cds_lfq_enqueue_rcu(q, dummy)
 d_ldn2:   Ld(next, NextOf(hd));                                  \* next = rcu_dereference(head->next)
           Deref(hd);
+          if (HelpTail) { goto d_ldt } else { goto d_cas };
+d_ldt:    Ld(tailp[self], QTail);                                \* [HelpTail] tail = rcu_dereference(q->tail)
+          if (tailp[self] # hd) { goto d_cas };
+d_help:   Cas(a, QTail, hd, next);                               \* [HelpTail] if (tail == head) (void) uatomic_cmpxchg(&q->tail, head, next)
 d_cas:    Cas(a, QHead, hd, next);                               \* uatomic_cmpxchg(&q->head, head, next) != head -> continue
           if (a # hd) { goto d_ldh }
           else {
@@ -229,8 +244,8 @@ t_ret:    cfgs := LM!AfterReturn(cfgs, pend, self, res) || pend[self] := LM!NoOp
 }
 } *)
 \* BEGIN TRANSLATION
-VARIABLES pc, mem, sb, acc, pend, cfgs, nalloc, alive, uaf, ovt, stale, incs, 
-          gpw, cbq, fin
+VARIABLES pc, mem, sb, acc, pend, cfgs, nalloc, alive, uaf, ovt, stale, stl, 
+          tailp, incs, gpw, cbq, fin
 
 (* define statement *)
 LastIdx(t, loc) == LET S == {j \in DOMAIN sb[t] : sb[t][j][1] = loc} IN
@@ -238,16 +253,18 @@ LastIdx(t, loc) == LET S == {j \in DOMAIN sb[t] : sb[t][j][1] = loc} IN
 Rd(t, loc) == IF LastIdx(t, loc) = 0 THEN mem[loc] ELSE sb[t][LastIdx(t, loc)][2]
 Drained(t) == sb[t] = <<>>
 Ev(t, op, var, a, b, r) == IF Tracing THEN [k |-> acc.k + 1, t |-> t, op |-> op, var |-> var, a |-> a, b |-> b, r |-> r] ELSE acc
-Linearizable == cfgs # {}
-NoUseAfterFree == ~uaf
 NoStaleTailDeref == ~stale
+
+
+Linearizable == stale \/ cfgs # {}
+NoUseAfterFree == stale \/ ~uaf
 InCs == {t \in Threads : incs[t]}
 
-VARIABLES batch, i, op, a, node, next, res, hd, tail, indq, got
+VARIABLES batch, i, op, a, node, next, res, hd, indq, got
 
-vars == << pc, mem, sb, acc, pend, cfgs, nalloc, alive, uaf, ovt, stale, incs, 
-           gpw, cbq, fin, batch, i, op, a, node, next, res, hd, tail, indq, 
-           got >>
+vars == << pc, mem, sb, acc, pend, cfgs, nalloc, alive, uaf, ovt, stale, stl, 
+           tailp, incs, gpw, cbq, fin, batch, i, op, a, node, next, res, hd, 
+           indq, got >>
 
 ProcSet == (Flushers) \cup ({RCU}) \cup (Threads)
 
@@ -262,6 +279,8 @@ Init == (* Global variables *)
         /\ uaf = FALSE
         /\ ovt = {}
         /\ stale = FALSE
+        /\ stl = {}
+        /\ tailp = [t \in Threads |-> NULL]
         /\ incs = [t \in Threads |-> FALSE]
         /\ gpw = [w \in Waiters |-> {}]
         /\ cbq = <<>>
@@ -276,7 +295,6 @@ Init == (* Global variables *)
         /\ next = [self \in Threads |-> NULL]
         /\ res = [self \in Threads |-> NULL]
         /\ hd = [self \in Threads |-> NULL]
-        /\ tail = [self \in Threads |-> NULL]
         /\ indq = [self \in Threads |-> FALSE]
         /\ got = [self \in Threads |-> <<>>]
         /\ pc = [self \in ProcSet |-> CASE self \in Flushers -> "fl"
@@ -290,9 +308,9 @@ fl(self) == /\ pc[self] = "fl"
                /\ mem' = [mem EXCEPT ![Head(sb[FlOf[self]])[1]] = Head(sb[FlOf[self]])[2]]
                /\ sb' = [sb EXCEPT ![FlOf[self]] = Tail(sb[FlOf[self]])]
             /\ pc' = [pc EXCEPT ![self] = "fl"]
-            /\ UNCHANGED << pend, cfgs, nalloc, alive, uaf, ovt, stale, incs, 
-                            gpw, cbq, fin, batch, i, op, a, node, next, res, 
-                            hd, tail, indq, got >>
+            /\ UNCHANGED << pend, cfgs, nalloc, alive, uaf, ovt, stale, stl, 
+                            tailp, incs, gpw, cbq, fin, batch, i, op, a, node, 
+                            next, res, hd, indq, got >>
 
 flusher(self) == fl(self)
 
@@ -304,16 +322,16 @@ r_wait(self) == /\ pc[self] = "r_wait"
                 /\ acc' = Ev(RCU, "gp_begin", "-", "-", "-", "-")
                 /\ pc' = [pc EXCEPT ![self] = "r_end"]
                 /\ UNCHANGED << mem, sb, pend, cfgs, nalloc, alive, uaf, ovt, 
-                                stale, incs, fin, i, op, a, node, next, res, 
-                                hd, tail, indq, got >>
+                                stale, stl, tailp, incs, fin, i, op, a, node, 
+                                next, res, hd, indq, got >>
 
 r_end(self) == /\ pc[self] = "r_end"
                /\ gpw[RCU] = {}
                /\ acc' = Ev(RCU, "gp_end", "-", "-", "-", "-")
                /\ pc' = [pc EXCEPT ![self] = "r_cb"]
                /\ UNCHANGED << mem, sb, pend, cfgs, nalloc, alive, uaf, ovt, 
-                               stale, incs, gpw, cbq, fin, batch, i, op, a, 
-                               node, next, res, hd, tail, indq, got >>
+                               stale, stl, tailp, incs, gpw, cbq, fin, batch, 
+                               i, op, a, node, next, res, hd, indq, got >>
 
 r_cb(self) == /\ pc[self] = "r_cb"
               /\ alive' = [alive EXCEPT ![Head(batch[self])] = FALSE]
@@ -322,8 +340,8 @@ r_cb(self) == /\ pc[self] = "r_cb"
                     THEN /\ pc' = [pc EXCEPT ![self] = "r_cb"]
                     ELSE /\ pc' = [pc EXCEPT ![self] = "r_wait"]
               /\ UNCHANGED << mem, sb, acc, pend, cfgs, nalloc, uaf, ovt, 
-                              stale, incs, gpw, cbq, fin, i, op, a, node, next, 
-                              res, hd, tail, indq, got >>
+                              stale, stl, tailp, incs, gpw, cbq, fin, i, op, a, 
+                              node, next, res, hd, indq, got >>
 
 rcu(self) == r_wait(self) \/ r_end(self) \/ r_cb(self)
 
@@ -340,9 +358,13 @@ t_top(self) == /\ pc[self] = "t_top"
                                      /\ mem' = [mem EXCEPT ![NextOf(op'[self].n)] = NULL]
                                      /\ IF Prog[self][i[self]].op = "reenq"
                                            THEN /\ got' = [got EXCEPT ![self] = Tail(got[self])]
+                                                /\ IF op'[self].n \in ovt
+                                                      THEN /\ stl' = (stl \cup {t \in Threads : pc[t] \in {"e_mb", "e_cas"} /\ tailp[t] = op'[self].n})
+                                                      ELSE /\ TRUE
+                                                           /\ stl' = stl
                                                 /\ ovt' = ovt \ {op'[self].n}
                                            ELSE /\ TRUE
-                                                /\ UNCHANGED << ovt, got >>
+                                                /\ UNCHANGED << ovt, stl, got >>
                                      /\ pc' = [pc EXCEPT ![self] = "e_ldt"]
                                      /\ gpw' = gpw
                                 ELSE /\ IF op'[self].op = "deq"
@@ -364,89 +386,94 @@ t_top(self) == /\ pc[self] = "t_top"
                                                                                        ELSE /\ pc' = [pc EXCEPT ![self] = "t_ret"]
                                                                       /\ gpw' = gpw
                                                 /\ incs' = incs
-                                     /\ UNCHANGED << mem, ovt, node, indq, got >>
+                                     /\ UNCHANGED << mem, ovt, stl, node, indq, 
+                                                     got >>
                      ELSE /\ pc' = [pc EXCEPT ![self] = "Done"]
-                          /\ UNCHANGED << mem, acc, pend, ovt, incs, gpw, op, 
-                                          node, res, indq, got >>
-               /\ UNCHANGED << sb, cfgs, nalloc, alive, uaf, stale, cbq, fin, 
-                               batch, i, a, next, hd, tail >>
+                          /\ UNCHANGED << mem, acc, pend, ovt, stl, incs, gpw, 
+                                          op, node, res, indq, got >>
+               /\ UNCHANGED << sb, cfgs, nalloc, alive, uaf, stale, tailp, cbq, 
+                               fin, batch, i, a, next, hd >>
 
 e_ldt(self) == /\ pc[self] = "e_ldt"
-               /\ tail' = [tail EXCEPT ![self] = Rd(self, QTail)]
+               /\ tailp' = [tailp EXCEPT ![self] = Rd(self, QTail)]
                /\ acc' = Ev(self, "ld", QTail, "-", "-", Rd(self, QTail))
                /\ pc' = [pc EXCEPT ![self] = "e_mb"]
                /\ UNCHANGED << mem, sb, pend, cfgs, nalloc, alive, uaf, ovt, 
-                               stale, incs, gpw, cbq, fin, batch, i, op, a, 
-                               node, next, res, hd, indq, got >>
+                               stale, stl, incs, gpw, cbq, fin, batch, i, op, 
+                               a, node, next, res, hd, indq, got >>
 
 e_mb(self) == /\ pc[self] = "e_mb"
               /\ Drained(self)
               /\ acc' = Ev(self, "mb", "-", "-", "-", "-")
               /\ pc' = [pc EXCEPT ![self] = "e_cas"]
               /\ UNCHANGED << mem, sb, pend, cfgs, nalloc, alive, uaf, ovt, 
-                              stale, incs, gpw, cbq, fin, batch, i, op, a, 
-                              node, next, res, hd, tail, indq, got >>
+                              stale, stl, tailp, incs, gpw, cbq, fin, batch, i, 
+                              op, a, node, next, res, hd, indq, got >>
 
 e_cas(self) == /\ pc[self] = "e_cas"
                /\ Drained(self)
-               /\ next' = [next EXCEPT ![self] = mem[(NextOf(tail[self]))]]
-               /\ IF mem[(NextOf(tail[self]))] = NULL
-                     THEN /\ mem' = [mem EXCEPT ![(NextOf(tail[self]))] = node[self]]
+               /\ next' = [next EXCEPT ![self] = mem[(NextOf(tailp[self]))]]
+               /\ IF mem[(NextOf(tailp[self]))] = NULL
+                     THEN /\ mem' = [mem EXCEPT ![(NextOf(tailp[self]))] = node[self]]
                      ELSE /\ TRUE
                           /\ mem' = mem
-               /\ acc' = Ev(self, "cas", (NextOf(tail[self])), NULL, node[self], next'[self])
-               /\ IF ~alive[tail[self]]
-                     THEN /\ IF tail[self] \in ovt
+               /\ acc' = Ev(self, "cas", (NextOf(tailp[self])), NULL, node[self], next'[self])
+               /\ IF ~alive[tailp[self]]
+                     THEN /\ IF tailp[self] \in ovt
                                 THEN /\ stale' = TRUE
                                      /\ uaf' = uaf
                                 ELSE /\ uaf' = TRUE
                                      /\ stale' = stale
-                     ELSE /\ TRUE
-                          /\ UNCHANGED << uaf, stale >>
+                     ELSE /\ IF self \in stl
+                                THEN /\ stale' = TRUE
+                                ELSE /\ TRUE
+                                     /\ stale' = stale
+                          /\ uaf' = uaf
+               /\ stl' = stl \ {self}
                /\ IF next'[self] = NULL
                      THEN /\ pc' = [pc EXCEPT ![self] = "e_adv"]
                      ELSE /\ pc' = [pc EXCEPT ![self] = "e_help"]
-               /\ UNCHANGED << sb, pend, cfgs, nalloc, alive, ovt, incs, gpw, 
-                               cbq, fin, batch, i, op, a, node, res, hd, tail, 
+               /\ UNCHANGED << sb, pend, cfgs, nalloc, alive, ovt, tailp, incs, 
+                               gpw, cbq, fin, batch, i, op, a, node, res, hd, 
                                indq, got >>
 
 e_help(self) == /\ pc[self] = "e_help"
                 /\ Drained(self)
                 /\ a' = [a EXCEPT ![self] = mem[QTail]]
-                /\ IF mem[QTail] = tail[self]
+                /\ IF mem[QTail] = (tailp[self])
                       THEN /\ mem' = [mem EXCEPT ![QTail] = next[self]]
                       ELSE /\ TRUE
                            /\ mem' = mem
-                /\ acc' = Ev(self, "cas", QTail, tail[self], next[self], a'[self])
+                /\ acc' = Ev(self, "cas", QTail, (tailp[self]), next[self], a'[self])
                 /\ pc' = [pc EXCEPT ![self] = "e_ldt"]
                 /\ UNCHANGED << sb, pend, cfgs, nalloc, alive, uaf, ovt, stale, 
-                                incs, gpw, cbq, fin, batch, i, op, node, next, 
-                                res, hd, tail, indq, got >>
+                                stl, tailp, incs, gpw, cbq, fin, batch, i, op, 
+                                node, next, res, hd, indq, got >>
 
 e_adv(self) == /\ pc[self] = "e_adv"
                /\ Drained(self)
                /\ a' = [a EXCEPT ![self] = mem[QTail]]
-               /\ IF mem[QTail] = tail[self]
+               /\ IF mem[QTail] = (tailp[self])
                      THEN /\ mem' = [mem EXCEPT ![QTail] = node[self]]
                      ELSE /\ TRUE
                           /\ mem' = mem
-               /\ acc' = Ev(self, "cas", QTail, tail[self], node[self], a'[self])
+               /\ acc' = Ev(self, "cas", QTail, (tailp[self]), node[self], a'[self])
                /\ IF indq[self]
                      THEN /\ pc' = [pc EXCEPT ![self] = "d_ldn2"]
                           /\ res' = res
                      ELSE /\ res' = [res EXCEPT ![self] = "ok"]
                           /\ pc' = [pc EXCEPT ![self] = "t_ret"]
                /\ UNCHANGED << sb, pend, cfgs, nalloc, alive, uaf, ovt, stale, 
-                               incs, gpw, cbq, fin, batch, i, op, node, next, 
-                               hd, tail, indq, got >>
+                               stl, tailp, incs, gpw, cbq, fin, batch, i, op, 
+                               node, next, hd, indq, got >>
 
 d_ldh(self) == /\ pc[self] = "d_ldh"
                /\ hd' = [hd EXCEPT ![self] = Rd(self, QHead)]
                /\ acc' = Ev(self, "ld", QHead, "-", "-", Rd(self, QHead))
                /\ pc' = [pc EXCEPT ![self] = "d_ldn"]
                /\ UNCHANGED << mem, sb, pend, cfgs, nalloc, alive, uaf, ovt, 
-                               stale, incs, gpw, cbq, fin, batch, i, op, a, 
-                               node, next, res, tail, indq, got >>
+                               stale, stl, tailp, incs, gpw, cbq, fin, batch, 
+                               i, op, a, node, next, res, indq, got >>
 
 d_ldn(self) == /\ pc[self] = "d_ldn"
                /\ next' = [next EXCEPT ![self] = Rd(self, (NextOf(hd[self])))]
@@ -458,16 +485,19 @@ d_ldn(self) == /\ pc[self] = "d_ldn"
                           /\ UNCHANGED << nalloc, alive, node >>
                      ELSE /\ IF next'[self] = NULL
                                 THEN /\ Assert(nalloc < MaxDm, 
-                                               "Failure of assertion at line 184, column 13.")
+                                               "Failure of assertion at line 195, column 13.")
                                      /\ /\ alive' = [alive EXCEPT ![Dm(nalloc + 1)] = TRUE]
                                         /\ nalloc' = nalloc + 1
                                         /\ node' = [node EXCEPT ![self] = Dm(nalloc + 1)]
                                      /\ pc' = [pc EXCEPT ![self] = "d_mkd"]
-                                ELSE /\ pc' = [pc EXCEPT ![self] = "d_cas"]
+                                ELSE /\ IF HelpTail
+                                           THEN /\ pc' = [pc EXCEPT ![self] = "d_ldt"]
+                                           ELSE /\ pc' = [pc EXCEPT ![self] = "d_cas"]
                                      /\ UNCHANGED << nalloc, alive, node >>
                           /\ res' = res
-               /\ UNCHANGED << mem, sb, pend, cfgs, ovt, stale, incs, gpw, cbq, 
-                               fin, batch, i, op, a, hd, tail, indq, got >>
+               /\ UNCHANGED << mem, sb, pend, cfgs, ovt, stale, stl, tailp, 
+                               incs, gpw, cbq, fin, batch, i, op, a, hd, indq, 
+                               got >>
 
 d_mkd(self) == /\ pc[self] = "d_mkd"
                /\ Drained(self)
@@ -476,17 +506,42 @@ d_mkd(self) == /\ pc[self] = "d_mkd"
                /\ indq' = [indq EXCEPT ![self] = TRUE]
                /\ pc' = [pc EXCEPT ![self] = "e_ldt"]
                /\ UNCHANGED << sb, pend, cfgs, nalloc, alive, uaf, ovt, stale, 
-                               incs, gpw, cbq, fin, batch, i, op, a, node, 
-                               next, res, hd, tail, got >>
+                               stl, tailp, incs, gpw, cbq, fin, batch, i, op, 
+                               a, node, next, res, hd, got >>
 
 d_ldn2(self) == /\ pc[self] = "d_ldn2"
                 /\ next' = [next EXCEPT ![self] = Rd(self, (NextOf(hd[self])))]
                 /\ acc' = Ev(self, "ld", (NextOf(hd[self])), "-", "-", Rd(self, (NextOf(hd[self]))))
                 /\ uaf' = (uaf \/ ~alive[hd[self]])
-                /\ pc' = [pc EXCEPT ![self] = "d_cas"]
+                /\ IF HelpTail
+                      THEN /\ pc' = [pc EXCEPT ![self] = "d_ldt"]
+                      ELSE /\ pc' = [pc EXCEPT ![self] = "d_cas"]
                 /\ UNCHANGED << mem, sb, pend, cfgs, nalloc, alive, ovt, stale, 
-                                incs, gpw, cbq, fin, batch, i, op, a, node, 
-                                res, hd, tail, indq, got >>
+                                stl, tailp, incs, gpw, cbq, fin, batch, i, op, 
+                                a, node, res, hd, indq, got >>
+
+d_ldt(self) == /\ pc[self] = "d_ldt"
+               /\ tailp' = [tailp EXCEPT ![self] = Rd(self, QTail)]
+               /\ acc' = Ev(self, "ld", QTail, "-", "-", Rd(self, QTail))
+               /\ IF tailp'[self] # hd[self]
+                     THEN /\ pc' = [pc EXCEPT ![self] = "d_cas"]
+                     ELSE /\ pc' = [pc EXCEPT ![self] = "d_help"]
+               /\ UNCHANGED << mem, sb, pend, cfgs, nalloc, alive, uaf, ovt, 
+                               stale, stl, incs, gpw, cbq, fin, batch, i, op, 
+                               a, node, next, res, hd, indq, got >>
+
+d_help(self) == /\ pc[self] = "d_help"
+                /\ Drained(self)
+                /\ a' = [a EXCEPT ![self] = mem[QTail]]
+                /\ IF mem[QTail] = hd[self]
+                      THEN /\ mem' = [mem EXCEPT ![QTail] = next[self]]
+                      ELSE /\ TRUE
+                           /\ mem' = mem
+                /\ acc' = Ev(self, "cas", QTail, hd[self], next[self], a'[self])
+                /\ pc' = [pc EXCEPT ![self] = "d_cas"]
+                /\ UNCHANGED << sb, pend, cfgs, nalloc, alive, uaf, ovt, stale, 
+                                stl, tailp, incs, gpw, cbq, fin, batch, i, op, 
+                                node, next, res, hd, indq, got >>
 
 d_cas(self) == /\ pc[self] = "d_cas"
                /\ Drained(self)
@@ -509,16 +564,16 @@ d_cas(self) == /\ pc[self] = "d_cas"
                                      /\ res' = res
                                 ELSE /\ res' = [res EXCEPT ![self] = hd[self]]
                                      /\ pc' = [pc EXCEPT ![self] = "t_ret"]
-               /\ UNCHANGED << sb, pend, cfgs, nalloc, alive, stale, incs, gpw, 
-                               cbq, fin, batch, i, op, node, next, hd, tail, 
-                               indq, got >>
+               /\ UNCHANGED << sb, pend, cfgs, nalloc, alive, stale, stl, 
+                               tailp, incs, gpw, cbq, fin, batch, i, op, node, 
+                               next, hd, indq, got >>
 
 d_crcu(self) == /\ pc[self] = "d_crcu"
                 /\ cbq' = Append(cbq, hd[self])
                 /\ pc' = [pc EXCEPT ![self] = "d_ldh"]
                 /\ UNCHANGED << mem, sb, acc, pend, cfgs, nalloc, alive, uaf, 
-                                ovt, stale, incs, gpw, fin, batch, i, op, a, 
-                                node, next, res, hd, tail, indq, got >>
+                                ovt, stale, stl, tailp, incs, gpw, fin, batch, 
+                                i, op, a, node, next, res, hd, indq, got >>
 
 x_ldh(self) == /\ pc[self] = "x_ldh"
                /\ hd' = [hd EXCEPT ![self] = Rd(self, QHead)]
@@ -530,8 +585,8 @@ x_ldh(self) == /\ pc[self] = "x_ldh"
                      ELSE /\ pc' = [pc EXCEPT ![self] = "x_ldn"]
                           /\ res' = res
                /\ UNCHANGED << mem, sb, pend, cfgs, nalloc, alive, ovt, stale, 
-                               incs, gpw, cbq, fin, batch, i, op, a, node, 
-                               next, tail, indq, got >>
+                               stl, tailp, incs, gpw, cbq, fin, batch, i, op, 
+                               a, node, next, indq, got >>
 
 x_ldn(self) == /\ pc[self] = "x_ldn"
                /\ next' = [next EXCEPT ![self] = Rd(self, (NextOf(hd[self])))]
@@ -543,24 +598,24 @@ x_ldn(self) == /\ pc[self] = "x_ldn"
                      ELSE /\ pc' = [pc EXCEPT ![self] = "x_free"]
                           /\ res' = res
                /\ UNCHANGED << mem, sb, pend, cfgs, nalloc, alive, ovt, stale, 
-                               incs, gpw, cbq, fin, batch, i, op, a, node, hd, 
-                               tail, indq, got >>
+                               stl, tailp, incs, gpw, cbq, fin, batch, i, op, 
+                               a, node, hd, indq, got >>
 
 x_free(self) == /\ pc[self] = "x_free"
                 /\ alive' = [alive EXCEPT ![hd[self]] = FALSE]
                 /\ res' = [res EXCEPT ![self] = "0"]
                 /\ pc' = [pc EXCEPT ![self] = "t_ret"]
                 /\ UNCHANGED << mem, sb, acc, pend, cfgs, nalloc, uaf, ovt, 
-                                stale, incs, gpw, cbq, fin, batch, i, op, a, 
-                                node, next, hd, tail, indq, got >>
+                                stale, stl, tailp, incs, gpw, cbq, fin, batch, 
+                                i, op, a, node, next, hd, indq, got >>
 
 s_end(self) == /\ pc[self] = "s_end"
                /\ gpw[self] = {}
                /\ acc' = Ev(self, "gp_end", "-", "-", "-", "-")
                /\ pc' = [pc EXCEPT ![self] = "t_ret"]
                /\ UNCHANGED << mem, sb, pend, cfgs, nalloc, alive, uaf, ovt, 
-                               stale, incs, gpw, cbq, fin, batch, i, op, a, 
-                               node, next, res, hd, tail, indq, got >>
+                               stale, stl, tailp, incs, gpw, cbq, fin, batch, 
+                               i, op, a, node, next, res, hd, indq, got >>
 
 f_free(self) == /\ pc[self] = "f_free"
                 /\ alive' = [alive EXCEPT ![Head(got[self])] = FALSE]
@@ -569,16 +624,16 @@ f_free(self) == /\ pc[self] = "f_free"
                       THEN /\ pc' = [pc EXCEPT ![self] = "f_free"]
                       ELSE /\ pc' = [pc EXCEPT ![self] = "t_ret"]
                 /\ UNCHANGED << mem, sb, acc, pend, cfgs, nalloc, uaf, ovt, 
-                                stale, incs, gpw, cbq, fin, batch, i, op, a, 
-                                node, next, res, hd, tail, indq >>
+                                stale, stl, tailp, incs, gpw, cbq, fin, batch, 
+                                i, op, a, node, next, res, hd, indq >>
 
 w_join(self) == /\ pc[self] = "w_join"
                 /\ \A k \in DOMAIN op[self].ts : fin[op[self].ts[k]]
                 /\ acc' = Ev(self, "joined", "-", "-", "-", "-")
                 /\ pc' = [pc EXCEPT ![self] = "t_ret"]
                 /\ UNCHANGED << mem, sb, pend, cfgs, nalloc, alive, uaf, ovt, 
-                                stale, incs, gpw, cbq, fin, batch, i, op, a, 
-                                node, next, res, hd, tail, indq, got >>
+                                stale, stl, tailp, incs, gpw, cbq, fin, batch, 
+                                i, op, a, node, next, res, hd, indq, got >>
 
 t_ret(self) == /\ pc[self] = "t_ret"
                /\ /\ cfgs' = LM!AfterReturn(cfgs, pend, self, res[self])
@@ -599,15 +654,16 @@ t_ret(self) == /\ pc[self] = "t_ret"
                /\ i' = [i EXCEPT ![self] = i[self] + 1]
                /\ pc' = [pc EXCEPT ![self] = "t_top"]
                /\ UNCHANGED << mem, sb, acc, nalloc, alive, uaf, ovt, stale, 
-                               cbq, batch, op, a, node, next, res, hd, tail, 
-                               indq >>
+                               stl, tailp, cbq, batch, op, a, node, next, res, 
+                               hd, indq >>
 
 thr(self) == t_top(self) \/ e_ldt(self) \/ e_mb(self) \/ e_cas(self)
                 \/ e_help(self) \/ e_adv(self) \/ d_ldh(self)
                 \/ d_ldn(self) \/ d_mkd(self) \/ d_ldn2(self)
-                \/ d_cas(self) \/ d_crcu(self) \/ x_ldh(self)
-                \/ x_ldn(self) \/ x_free(self) \/ s_end(self)
-                \/ f_free(self) \/ w_join(self) \/ t_ret(self)
+                \/ d_ldt(self) \/ d_help(self) \/ d_cas(self)
+                \/ d_crcu(self) \/ x_ldh(self) \/ x_ldn(self)
+                \/ x_free(self) \/ s_end(self) \/ f_free(self)
+                \/ w_join(self) \/ t_ret(self)
 
 Next == (\E self \in Flushers: flusher(self))
            \/ (\E self \in {RCU}: rcu(self))
@@ -630,13 +686,15 @@ UserPart(s) == SelectSeq(s, LAMBDA x : x \in UserNodes)
 HasDestroy == \E o \in AllOps : o.op = "destroy"
 \* at quiescence the physical queue is the abstract queue of a surviving linearisation (operations that overlapped and
 \* whose order nobody observed leave several), the tail is the last node
-Conservation == AllDone => /\ \E c \in cfgs : c.abs = UserPart(Chain)
+Conservation == (AllDone /\ ~stale) => /\ \E c \in cfgs : c.abs = UserPart(Chain)
                            /\ Len(Chain) >= 1 /\ mem[QTail] = Chain[Len(Chain)]
                            /\ \A t \in Threads : sb[t] = <<>>
 \* a dequeue never returns a dummy node
-NoDummyReturned == \A t \in Threads : (pc[t] = "t_ret" /\ op[t].op = "deq") => res[t] \notin Dummies
+\* with the repair candidate head never overtakes tail
+NoOvertake == HelpTail => ovt = {}
+NoDummyReturned == stale \/ \A t \in Threads : (pc[t] = "t_ret" /\ op[t].op = "deq") => res[t] \notin Dummies
 \* every allocated dummy is either still linked or was freed (after its grace period); linked nodes are alive unless the queue was destroyed
-NoLeak == (AllDone /\ RcuIdle) =>
+NoLeak == (AllDone /\ RcuIdle /\ ~stale) =>
             /\ \A k \in 1..nalloc : alive[Dm(k)] => \E j \in DOMAIN Chain : Chain[j] = Dm(k)
             /\ \A j \in DOMAIN Chain : alive[Chain[j]] \/ (HasDestroy /\ Len(Chain) = 1)
 \* deadlock freedom with an explicit notion of termination (flushers and the rcu worker never terminate)
